@@ -84,6 +84,17 @@ type schedule struct {
 	Used     []string          `json:"used"`
 	File     map[string]string `json:"file"`
 	InitKeys []string          `json:"initkeys"`
+	Probe    *probeRec         `json:"probe,omitempty"`
+}
+
+// probeRec: after the last step the specification does not allow this step; the real code must block.
+//
+//	kind "summon": request R (not called yet) calls Op: SummonSwamp must wait for the closing swamp
+//	kind "drain":  request R stands before Destroy's vigil drain: it must wait for the active vigils
+type probeRec struct {
+	Kind string `json:"kind"`
+	R    string `json:"r"`
+	Op   opRec  `json:"op"`
 }
 
 type result struct {
@@ -280,6 +291,39 @@ func (w *world) waitNext(p *proc, acceptIdle bool, d time.Duration) string {
 	}
 }
 
+// waitBlocked waits until p is provably parked for one of the reasons ("blocked"), or reaches a gate / finishes.
+func (w *world) waitBlocked(p *proc, reasons []string, d time.Duration) string {
+	deadline := time.Now().Add(d)
+	seen := 0
+	for {
+		if at, _ := w.where(p); at != "" {
+			return "gate:" + at
+		}
+		if p.done.Load() {
+			return "done"
+		}
+		s := sched.State(p.goid)
+		ok := false
+		for _, r := range reasons {
+			if s == r {
+				ok = true
+			}
+		}
+		if ok {
+			seen++
+			if at, _ := w.where(p); seen >= 5 && at == "" && !p.done.Load() {
+				return "blocked"
+			}
+		} else {
+			seen = 0
+		}
+		if time.Now().After(deadline) {
+			return "timeout"
+		}
+		time.Sleep(300 * time.Microsecond)
+	}
+}
+
 // waitProcAt waits until the named process exists and is parked at the given gate.
 func (w *world) waitProcAt(name, point string, d time.Duration) *proc {
 	deadline := time.Now().Add(d)
@@ -440,6 +484,10 @@ func waitClosed(hy hydra.Hydra, swampName string, d time.Duration) bool {
 }
 
 // seed writes the initial keys with value v0 and closes the swamp (setup, not under test).
+type seedLoss struct{ obs map[string]string }
+
+func (s *seedLoss) Error() string { return fmt.Sprintf("seeded records read %v after a plain Close and re-open", s.obs) }
+
 func (e *env) seed(swampName string, keys []string) error {
 	if len(keys) == 0 {
 		return nil
@@ -463,7 +511,7 @@ func (e *env) seed(swampName string, keys []string) error {
 	}
 	for _, k := range keys {
 		if got[k] != "v0" {
-			return fmt.Errorf("seed: key %s reads %q after close", k, got[k])
+			return &seedLoss{obs: got} // an acknowledged write that does not survive Close + re-open: a verdict, not a harness problem
 		}
 	}
 	sw, err = e.hy.SummonSwamp(context.Background(), island, name.Load(swampName))
@@ -525,15 +573,23 @@ func replay(sc *schedule) *result {
 	w = &world{swampName: swampName, byGoid: map[int64]*proc{}, procs: map[string]*proc{}}
 	w.seeding.Store(true)
 	verifhook.SetYield(w.onYield)
-	if err := e.seed(swampName, sc.InitKeys); err != nil {
-		res.Infra = "seed: " + err.Error()
-		return res
-	}
+	seedErr := e.seed(swampName, sc.InitKeys)
 	w.seeding.Store(false)
 	for i, k := range sc.InitKeys { // the seeded records are acknowledged writes of the history too
 		sn := "s" + strconv.Itoa(i+1)
 		res.Events = append(res.Events, map[string]any{"ev": "call", "r": sn, "op": "set", "k": k, "v": "v0", "res": "", "file": map[string]string{}},
 			map[string]any{"ev": "ret", "r": sn, "op": "set", "k": k, "v": "", "res": "ok", "file": map[string]string{}})
+	}
+	if sl, ok := seedErr.(*seedLoss); ok {
+		res.Mismatch = "setup: " + sl.Error()
+		res.AtStep = 0
+		res.Observed = sl.obs
+		res.Events = append(res.Events, map[string]any{"ev": "reload", "r": "", "op": "", "k": "", "v": "", "res": "", "file": fullFile(sl.obs)})
+		w.free.Store(true)
+		return res
+	} else if seedErr != nil {
+		res.Infra = "seed: " + seedErr.Error()
+		return res
 	}
 	var evMu sync.Mutex
 	emit := func(m map[string]any) {
@@ -718,6 +774,17 @@ func replay(sc *schedule) *result {
 				infra(k, "no process %s", pname)
 				break
 			}
+			if s.A == "LCheck" && os.Getenv("VERIF_C16_FRESHCHECK") == "1" && k > 0 {
+				// code under test re-reads lastInteractionTime under the lock (D_C16_IdleCloseStaleCheck repaired): make
+				// the real clock agree with the model's notion of "idle" before the check runs (everything else is parked)
+				if sw := swampOf(s.I); sw != nil {
+					if sc.Hist[k-1].St.Inst[s.I-1].Idle {
+						time.Sleep(2300 * time.Millisecond)
+					} else {
+						sw.TreasureExists("~verif~")
+					}
+				}
+			}
 			w.letGo(p)
 			var pc string
 			switch s.P {
@@ -776,6 +843,52 @@ func replay(sc *schedule) *result {
 			}
 		}
 		res.Log = append(res.Log, fmt.Sprintf("%d %s %s %d ok", k, s.A, s.P, s.I))
+	}
+	if sc.Probe != nil && res.Mismatch == "" && res.Infra == "" {
+		k := len(sc.Hist)
+		switch sc.Probe.Kind {
+		case "summon":
+			// the gate inside IsClosing() is passed: what matters is what SummonSwamp does with the answer
+			p := &proc{name: sc.Probe.R, kind: 'R', release: make(chan struct{}, 1), passTo: reqGate[sc.Probe.Op.Op]["op"]}
+			ready := make(chan struct{})
+			o := sc.Probe.Op
+			wg.Add(1)
+			go func() {
+				defer wg.Done()
+				p.goid = sched.GoID()
+				w.mu.Lock()
+				w.byGoid[p.goid] = p
+				w.procs[p.name] = p
+				w.mu.Unlock()
+				close(ready)
+				emit(map[string]any{"ev": "call", "r": p.name, "op": o.Op, "k": o.K, "v": p.name, "res": "", "file": map[string]string{}})
+				p.ret = e.doOp(o, p.name, swampName)
+				emit(map[string]any{"ev": "ret", "r": p.name, "op": o.Op, "k": o.K, "v": "", "res": p.ret, "file": map[string]string{}})
+				p.done.Store(true)
+			}()
+			<-ready
+			switch got := w.waitBlocked(p, []string{"select"}, stepTimeout); got {
+			case "blocked":
+			case "timeout":
+				infra(k, "probe: %s neither blocked nor reached a gate (state %q)", p.name, sched.State(p.goid))
+			default:
+				mismatch(k, "probe: the swamp is closing, SummonSwamp must wait for it to leave the map, but the request went on (%s)", got)
+			}
+		case "drain":
+			p := w.getProc(sc.Probe.R)
+			if p == nil {
+				infra(k, "probe: no process %s", sc.Probe.R)
+				break
+			}
+			w.letGo(p)
+			switch got := w.waitBlocked(p, []string{"sync.Cond.Wait"}, stepTimeout); got {
+			case "blocked":
+			case "timeout":
+				infra(k, "probe: %s neither blocked nor reached a gate (state %q)", p.name, sched.State(p.goid))
+			default:
+				mismatch(k, "probe: another request holds a vigil, Destroy must wait for it, but it went on (%s)", got)
+			}
+		}
 	}
 	res.Completed = res.Mismatch == "" && res.Infra == ""
 
